@@ -55,6 +55,7 @@ theorem Reach.trans {rdeps : α → Option (List α)} {a b c : α} (h1 : Reach r
   | refl => exact h1
   | step _ hr hm ih => exact Reach.step ih hr hm
 
+omit [DecidableEq α] in
 theorem Reach.head {rdeps : α → Option (List α)} {a b c : α} {rs : List α} (hr : rdeps a = some rs) (hm : b ∈ rs)
     (h : Reach rdeps b c) : Reach rdeps a c :=
   Reach.trans (Reach.step (Reach.refl a) hr hm) h
@@ -403,19 +404,45 @@ theorem rank_reach {rank : α → Nat} (hr : ∀ a rs b, rdeps a = some rs → b
   | refl => exact Nat.le_refl _
   | step _ hrs hm ih => exact Nat.le_of_lt (Nat.lt_of_lt_of_le (hr _ _ _ hrs hm) ih)
 
-/-- **sortFrom_order.** On a graph with a rank that strictly decreases along edges (acyclic): in
-`out = pre ++ a :: post` every reverse dependency of `a` (that is in the graph) is in `post`:
-dependencies are refreshed before their dependents. -/
-theorem sortFrom_order {rank : α → Nat} (hr : ∀ a rs b, rdeps a = some rs → b ∈ rs → rank b < rank a)
+omit [DecidableEq α] in
+theorem rank_up_reach {rank : α → Nat} (hr : ∀ a rs b, rdeps a = some rs → b ∈ rs → rank a < rank b)
+    {a b : α} (h : Reach rdeps a b) : rank a ≤ rank b := by
+  induction h with
+  | refl => exact Nat.le_refl _
+  | step _ hrs hm ih => exact Nat.le_of_lt (Nat.lt_of_le_of_lt ih (hr _ _ _ hrs hm))
+
+/-- **sortFrom_order_acyclic.** If no edge `a → b` closes a cycle (`a` is not reachable from `b`):
+in `out = pre ++ a :: post` every reverse dependency of `a` (that is in the graph) is in `post`. -/
+theorem sortFrom_order_acyclic (hac : ∀ a rs b, rdeps a = some rs → b ∈ rs → ¬ Reach rdeps b a)
     {fuel : Nat} {changed : List α} {st : VSt α} (h : sortFrom rdeps fuel changed = some st) :
     ∀ pre a post, st.out = pre ++ a :: post → ∀ rs, rdeps a = some rs → ∀ b ∈ rs, rdeps b ≠ none →
       b ∈ post := by
   intro pre a post hout rs hrs b hb hbg
   rcases sortFrom_order_scc h pre a post hout rs hrs b hb hbg with h1 | h1
   · exact h1
-  · have := rank_reach hr h1
+  · exact absurd h1 (hac a rs b hrs hb)
+
+/-- **sortFrom_order.** On a graph with a rank that strictly decreases along edges (acyclic): in
+`out = pre ++ a :: post` every reverse dependency of `a` (that is in the graph) is in `post`:
+dependencies are refreshed before their dependents. -/
+theorem sortFrom_order {rank : α → Nat} (hr : ∀ a rs b, rdeps a = some rs → b ∈ rs → rank b < rank a)
+    {fuel : Nat} {changed : List α} {st : VSt α} (h : sortFrom rdeps fuel changed = some st) :
+    ∀ pre a post, st.out = pre ++ a :: post → ∀ rs, rdeps a = some rs → ∀ b ∈ rs, rdeps b ≠ none →
+      b ∈ post :=
+  sortFrom_order_acyclic (fun a rs b hrs hb h1 => by
+    have := rank_reach hr h1
     have := hr a rs b hrs hb
-    omega
+    omega) h
+
+/-- the same with a rank that strictly increases along edges -/
+theorem sortFrom_order_up {rank : α → Nat} (hr : ∀ a rs b, rdeps a = some rs → b ∈ rs → rank a < rank b)
+    {fuel : Nat} {changed : List α} {st : VSt α} (h : sortFrom rdeps fuel changed = some st) :
+    ∀ pre a post, st.out = pre ++ a :: post → ∀ rs, rdeps a = some rs → ∀ b ∈ rs, rdeps b ≠ none →
+      b ∈ post :=
+  sortFrom_order_acyclic (fun a rs b hrs hb h1 => by
+    have := rank_up_reach hr h1
+    have := hr a rs b hrs hb
+    omega) h
 
 /-- the same for any listed node: the decomposition exists -/
 theorem sortFrom_order_mem {rank : α → Nat} (hr : ∀ a rs b, rdeps a = some rs → b ∈ rs → rank b < rank a)
@@ -432,8 +459,11 @@ theorem sortFrom_order_mem {rank : α → Nat} (hr : ∀ a rs b, rdeps a = some 
     exact this rfl
   exact ⟨pre, post, hout, hap, sortFrom_order hr h pre a post hout rs hrs b hb hbg⟩
 
-theorem exDag_rank : ∀ a rs b, exDag a = some rs → b ∈ rs → (fun n => 10 - n) b < (fun n => 10 - n) a := by
+def exRank (n : Nat) : Nat := 10 - n
+
+theorem exDag_rank : ∀ a rs b, exDag a = some rs → b ∈ rs → exRank b < exRank a := by
   intro a rs b h hb
+  unfold exRank
   match a, h with
   | 0, h => cases h; simp at hb; rcases hb with rfl | rfl <;> simp
   | 1, h => cases h; simp at hb; subst hb; simp
@@ -443,6 +473,14 @@ theorem exDag_rank : ∀ a rs b, exDag a = some rs → b ∈ rs → (fun n => 10
 example : ∃ st, sortFrom exDag 4 [2, 1, 0] = some st ∧ st.out = [0, 1, 2] := ⟨_, rfl, rfl⟩
 example : ∀ pre a post, [0, 1, 2] = pre ++ a :: post → ∀ rs, exDag a = some rs → ∀ b ∈ rs, exDag b ≠ none →
     b ∈ post := sortFrom_order exDag_rank (fuel := 4) (changed := [2, 1, 0]) rfl
+example : ∀ pre a post, [0, 1, 2] = pre ++ a :: post → ∀ rs, exDag a = some rs → ∀ b ∈ rs, exDag b ≠ none →
+    b ∈ post := sortFrom_order_up (rank := id) (fun a rs b h hb => by
+      have := exDag_rank a rs b h hb; simp only [exRank, id] at *; omega) (fuel := 4) (changed := [2, 1, 0]) rfl
+example : ∀ pre a post, [0, 1, 2] = pre ++ a :: post → ∀ rs, exDag a = some rs → ∀ b ∈ rs, exDag b ≠ none →
+    b ∈ post := sortFrom_order_acyclic (fun a rs b h hb hre => by
+      have := exDag_rank a rs b h hb; have := rank_reach exDag_rank hre; omega) (fuel := 4) (changed := [2, 1, 0]) rfl
+example : ∃ pre post, [0, 1, 2] = pre ++ 1 :: post ∧ 1 ∉ pre ∧ 2 ∈ post :=
+  sortFrom_order_mem exDag_rank (fuel := 4) (changed := [2, 1, 0]) rfl 1 (by simp) [2] rfl 2 (by simp) (by simp [exDag])
 -- on the cyclic example the strict order is impossible (`1` and `2` are each other's reverse
 -- dependencies) and `sortFrom_order_scc` is what holds
 example : ∃ st, sortFrom exG 4 [1] = some st ∧ st.out = [1, 2] ∧ Reach exG 1 2 ∧ Reach exG 2 1 :=
